@@ -16,6 +16,7 @@
 #pragma once
 
 #include <unifex/bind_back.hpp>
+#include <unifex/continuations.hpp>
 #include <unifex/get_stop_token.hpp>
 #include <unifex/inplace_stop_token.hpp>
 #include <unifex/receiver_concepts.hpp>
@@ -101,6 +102,14 @@ private:
     return op_->stopSource_.get_token();
   }
 
+#if UNIFEX_ENABLE_CONTINUATION_VISITATIONS
+  template <typename Func>
+  friend void
+  tag_invoke(tag_t<visit_continuations>, const type& r, Func&& func) {
+    std::invoke(func, r.get_receiver());
+  }
+#endif
+
   const Receiver& get_receiver() const noexcept { return op_->receiver_; }
 
   operation_state* op_;
@@ -150,6 +159,14 @@ private:
   inplace_stop_token get_stop_token() const noexcept {
     return op_->stopSource_.get_token();
   }
+
+#if UNIFEX_ENABLE_CONTINUATION_VISITATIONS
+  template <typename Func>
+  friend void
+  tag_invoke(tag_t<visit_continuations>, const type& r, Func&& func) {
+    std::invoke(func, r.get_receiver());
+  }
+#endif
 
   const Receiver& get_receiver() const noexcept { return op_->receiver_; }
 
